@@ -178,6 +178,8 @@ def __calculate_equities_0(
 
     equities = [0.0] * len(hole_cards)
 
+    hand_type_hands = []
+
     for hand_type in hand_types:
         hands = list(
             map(
@@ -185,9 +187,14 @@ def __calculate_equities_0(
                 hole_cards,
             ),
         )
+
+        if max_or_none(hands) is not None:
+            hand_type_hands.append(hands)
+
+    for hands in hand_type_hands:
         max_hand = max_or_none(hands)
         statuses = list(map(partial(eq, max_hand), hands))
-        increment = 1 / (len(hand_types) * sum(statuses))
+        increment = 1 / (len(hand_type_hands) * sum(statuses))
 
         for i, status in enumerate(statuses):
             if status:
